@@ -4,6 +4,7 @@ import (
 	"fmt"
 	"regexp"
 	"sort"
+	"strconv"
 	"strings"
 
 	"github.com/aymerick/raymond"
@@ -46,6 +47,12 @@ func registerHandlebarsHelpers() {
 
 	raymond.RegisterHelper("ToSnakeCase", func(arg string) string {
 		return strcase.ToSnake(arg)
+	})
+
+	// GoStringLiteral renders its argument as a Go string literal, quotes included, so that the generated code holds
+	// exactly the text that was declared (a validator such as oneof='a b' c, or one with a backslash)
+	raymond.RegisterHelper("GoStringLiteral", func(arg string) raymond.SafeString {
+		return raymond.SafeString(strconv.Quote(arg))
 	})
 
 	raymond.RegisterHelper("ToLowerCamel", func(arg string) string {
